@@ -123,11 +123,20 @@ def main():
         return o
 
     genv = dict(env)
+    dump = open('%s.%d' % (spec['dump_outcomes'], os.getpid()), 'a') if spec.get('dump_outcomes') else None
+    skip_ref = bool(spec.get('skip_ref'))
     for i in range(start, len(cases)):
         case = cases[i]
         os.pwrite(pfd, b'%12d' % i, 0)
-        exp = observe(R, case, genv)
-        got = observe(C, case, genv)
+        got = None
+        if skip_ref:
+            exp = got = observe(C, case, genv)
+        else:
+            exp = observe(R, case, genv)
+            got = observe(C, case, genv)
+        if dump is not None:
+            # one line per case: id given by the caller, outcome of the compiled module (cross-configuration monitors)
+            dump.write(json.dumps([case.get('id', i), got]) + '\n')
         cls = exp[0] + ':' + (exp[1][0] if exp[0] == 'ok' else exp[1])
         tag = case.get('t', case.get('f', '?'))
         key = '%s|%s' % (tag, cls)
@@ -144,6 +153,8 @@ def main():
         if gc_every and i % gc_every == 0:
             gc.collect()
     os.pwrite(pfd, b'%12d' % len(cases), 0)
+    if dump is not None:
+        dump.close()
     out.write(json.dumps({'done': True, 'n': len(cases) - start, 'nmismatch': nmis, 'hist': hist,
                           'distinct': len(distinct), 'samples': samples, 'cfile': cfile}) + '\n')
     out.close()
